@@ -543,6 +543,11 @@ class BackendTranslator:
     def cond(self, t):
         if self._self_attr(t) == "_readonly":
             return "BEReadonly"
+        if isinstance(t, ast.UnaryOp) and isinstance(t.op, ast.Not):
+            return f"(BENot {self.cond(t.operand)})"
+        if isinstance(t, ast.Call) and isinstance(t.func, ast.Name) and t.func.id == "hasattr" and len(t.args) == 2 \
+                and isinstance(t.args[0], ast.Name) and t.args[0].id == "self" and isinstance(t.args[1], ast.Constant) and t.args[1].value == "_ukvfile":
+            return "BEHasUkv"
         if isinstance(t, ast.Compare) and len(t.ops) == 1 and isinstance(t.ops[0], ast.Gt) \
                 and self._self_attr(t.left) == "used_memory" and self._self_attr(t.comparators[0]) == "_bufsize":
             return "BEOverBudget"
@@ -569,17 +574,47 @@ class BackendTranslator:
         cname = {"put": "bput", "get": "bget"}.get(name, name.lstrip("_"))
         return f"({'BCallRet' if ret else 'BCall'} {cname}_prog)"
 
+    def _arg(self, a):
+        if isinstance(a, ast.Constant) and isinstance(a.value, str):
+            return f"(BEStr {cq_str(a.value)})"
+        if isinstance(a, ast.Constant) and a.value is None:
+            return "BENone"
+        if self._self_attr(a) == "_path":
+            return "BENone"                      # which file: fixed in the model
+        return self._local(a)
+
+    def _ukv_args(self, name, call):
+        """parameters of UKVFile.<name> bound from the call's positional and keyword arguments and constant defaults"""
+        m = self.ukv.classes["UKVFile"][name]
+        pos = [a.arg for a in m.args.args[1:]]
+        kwo = [a.arg for a in m.args.kwonlyargs]
+        dflt = dict(zip(pos[len(pos) - len(m.args.defaults):], m.args.defaults))
+        dflt.update({k: d for k, d in zip(kwo, m.args.kw_defaults) if d is not None})
+        given = {}
+        if len(call.args) > len(pos):
+            raise Refuse(f"self._ukvfile.{name}: too many arguments")
+        for p, a in zip(pos, call.args):
+            given[p] = self._arg(a)
+        for kw in call.keywords:
+            if kw.arg is None or kw.arg in given or kw.arg not in pos + kwo:
+                raise Refuse(f"self._ukvfile.{name}: keyword {kw.arg}")
+            given[kw.arg] = self._arg(kw.value)
+        out = []
+        for p in pos + kwo:
+            if p in given:
+                out.append((p, given[p]))
+            elif p in dflt and isinstance(dflt[p], ast.Constant):
+                out.append((p, self._arg(dflt[p])))
+            else:
+                raise Refuse(f"self._ukvfile.{name}: parameter {p} not given")
+        return "[" + "; ".join(f"({cq_str(p)}, {e})" for p, e in out) + "]"
+
     def call_ukv(self, call, ret):
         """self._ukvfile.<m>(args)"""
         name = call.func.attr
-        if name not in ("put", "get") or name not in self.ukv.defined:
+        if name not in ("put", "get", "open", "close") or name not in self.ukv.defined:
             raise Refuse(f"self._ukvfile.{name}")
-        m = self.ukv.classes["UKVFile"][name]
-        params = [a.arg for a in m.args.args[1:]]
-        if call.keywords or len(call.args) != len(params):
-            raise Refuse(f"self._ukvfile.{name}: argument list")
-        args = "; ".join(f"({cq_str(p)}, {self._local(a)})" for p, a in zip(params, call.args))
-        return f"({'BUkvCallRet' if ret else 'BUkvCall'} {name}_prog [{args}])"
+        return f"({'BUkvCallRet' if ret else 'BUkvCall'} {name}_prog {self._ukv_args(name, call)})"
 
     def st(self, n):
         if isinstance(n, ast.Expr) and isinstance(n.value, ast.Constant):
@@ -606,6 +641,11 @@ class BackendTranslator:
         if isinstance(n, ast.Assign) and len(n.targets) == 1 and self._self_attr(n.targets[0]) == "_usedmem" \
                 and isinstance(n.value, ast.Constant) and n.value.value == 0:
             return ["BUsedReset"]
+        if isinstance(n, ast.Assign) and len(n.targets) == 1 and self._self_attr(n.targets[0]) == "_ukvfile":
+            v = n.value                      # self._ukvfile = UKVFile(self._path, mode="r")
+            if isinstance(v, ast.Call) and isinstance(v.func, ast.Name) and v.func.id == "UKVFile" and "__init__" in self.ukv.defined:
+                return [f"(BUkvNew init_prog {self._ukv_args('__init__', v)})"]
+            raise Refuse("self._ukvfile = <not UKVFile(...)>")
         if isinstance(n, ast.Assign) and len(n.targets) == 1 and self._self_attr(n.targets[0]) == "_keys":
             v = n.value                      # {k.decode() for k in self._ukvfile.keys()}
             ok = (isinstance(v, ast.SetComp) and len(v.generators) == 1 and not v.generators[0].ifs
@@ -676,12 +716,12 @@ class BackendTranslator:
         return body, [a.arg for a in m.args.args[1:]]
 
 
-BMETHODS = ["update_keys", "_write", "_read", "flush", "put", "get"]
+BMETHODS = ["update_keys", "_write", "_read", "flush", "put", "get", "begin_read", "end_read", "begin_write", "end_write"]
 
 
 def translate_backend(repo):
     T = Translator(open(os.path.join(repo, "molli", "storage", "ukvfile.py")).read())
-    for name in ("get", "put"):
+    for name in ("get", "put", "close", "read_header", "map_blocks", "open", "__init__"):
         T.method(name)                     # establishes that the inner methods are translatable (their terms live in Gen/UKVCode.v)
     B = BackendTranslator(open(os.path.join(repo, "molli", "storage", "backends.py")).read(), T)
     out = ["(* GENERATED by harness/ukv_translate.py from molli/storage/backends.py -- do not edit.",
